@@ -117,6 +117,19 @@ func (ex *Exec) lvalueLocs(env *SpecEnv, e ast.Expr) []modLoc {
 	return nil
 }
 
+func (ex *Exec) isGhostLocalClass(class string) bool {
+	if !strings.HasPrefix(class, "G:$") {
+		return false
+	}
+	name := strings.TrimPrefix(class, "G:$")
+	for _, sep := range []string{"@", ".", "["} {
+		if i := strings.Index(name, sep); i >= 0 {
+			name = name[:i]
+		}
+	}
+	return ex.Specs.GhostLocal[name]
+}
+
 func classMatches(class, prefix string) bool {
 	if class == prefix {
 		return true
@@ -247,7 +260,7 @@ func (ex *Exec) havocLvalue(st *State, fr *Frame, env *SpecEnv, m Clause, pos to
 		_ = touched
 		// caller frame: the callee's footprint must be inside the caller's
 		top := ex.topFrame(st)
-		if top.Spec != nil && (!top.Spec.ModAll || isGhostClass(loc.class)) && ex.pure == nil && !st.Fresh[loc.ref] {
+		if top.Spec != nil && (!top.Spec.ModAll || isGhostClass(loc.class)) && ex.pure == nil && !st.Fresh[loc.ref] && !ex.isGhostLocalClass(loc.class) {
 			var alts []*Term
 			alts = append(alts, Lt(top.EntryFull.Frontier, loc.ref))
 			for _, mm := range top.Mods {
@@ -701,6 +714,9 @@ func (ex *Exec) VerifyFunc(sp *FuncSpec) {
 				}
 			}
 		}
+	}
+	for _, l := range sp.Locals {
+		env.setGhostGlobal(l.Name, env.eval(l.Init))
 	}
 	for _, gs := range sp.EntrySets {
 		var vals []TV
